@@ -27,6 +27,8 @@ def Err.name : Err → String
   | .auth => "auth" | .replay => "replay" | .protection => "protection"
   | .client => "client" | .range => "range"
 
+deriving instance DecidableEq for Except
+
 /-- big-endian encoding of `n` on exactly `k` bytes (caller checks the range). -/
 def beBytes : (k : Nat) → (n : Nat) → Bytes
   | 0, _ => []
